@@ -71,6 +71,14 @@ def evStr : Ev → Option String
 def replyBytes (evs : List Ev) : Bytes :=
   evs.flatMap fun e => match e with | .reply b => b | _ => []
 
+def tokTag : Tok → String
+  | .text _ _ => "t"
+  | .ctl b => s!"c{b.toNat}"
+  | .esc inter fin => if inter.isEmpty then s!"e{fin.toNat}" else s!"ei{fin.toNat}"
+  | .csi pfx _ clean fin => s!"[{pfx.toNat}.{fin.toNat}" ++ (if clean then "" else "!")
+  | .osc num _ wf => s!"]{num}" ++ (if wf then "" else "!")
+  | .dcs => "P"
+
 structure DState where
   t : Term
   pending : Bytes := []
@@ -104,14 +112,21 @@ def printObs (d : DState) (evs : List Ev) (full : Bool) : IO DState := do
   return { d with lastRows := rows }
 
 /-- consume tokens until `consumed = target`; stops early when input is incomplete -/
-partial def advance (wt : WidthTable) (d : DState) (target : Nat) (evs : List Ev) : DState × List Ev × Bool :=
-  if d.consumed ≥ target then (d, evs, d.consumed = target)
+partial def advance (wt : WidthTable) (d : DState) (target : Nat) (evs : List Ev) (tags : List String) :
+    DState × List Ev × List String × Bool :=
+  if d.consumed ≥ target then (d, evs, tags, d.consumed = target)
   else
     match next d.pending with
-    | .need => (d, evs, false)
+    | .need => (d, evs, tags, false)
     | .tok tk n =>
       let (t', e) := d.t.apply wt.lookup tk
+      -- a text write on the second cell of a wide character under the `keep` policy
+      let sc := d.t.scr
+      let k : Bool := match tk with
+        | .text _ _ => d.t.pol == .keep && contAt (sc.row sc.cy) sc.cx
+        | _ => false
       advance wt { d with t := t', pending := d.pending.drop n, consumed := d.consumed + n } target (evs ++ e)
+        (tags ++ [if k then "tK" else tokTag tk])
 
 partial def loop (wt : WidthTable) (h : IO.FS.Stream) (d : DState) : IO Unit := do
   let line ← h.getLine
@@ -128,14 +143,24 @@ partial def loop (wt : WidthTable) (h : IO.FS.Stream) (d : DState) : IO Unit := 
     | some bs => loop wt h { d with pending := d.pending ++ bs }
     | none => IO.println "bad-hex"; loop wt h d
   | ["adv", n] =>
-    let (d', evs, ok) := advance wt d n.toNat! []
+    let (d', evs, tags, ok) := advance wt d n.toNat! [] []
     if !ok then
       (← IO.getStdout).putStrLn s!"X framing consumed={d'.consumed} target={n}"
+    (← IO.getStdout).putStrLn ("T " ++ (if tags.isEmpty then "-" else ",".intercalate tags))
     let d' ← printObs d' evs false
     loop wt h d'
   | ["resize", w, hh] =>
     let (t', evs) := d.t.resize w.toNat! hh.toNat!
     let d' ← printObs { d with t := t' } evs false
+    loop wt h d'
+  | ["eof"] =>
+    -- the backend reported EOF: an incomplete control sequence has been read to the end and is
+    -- dropped; an incomplete character stays unconsumed
+    let d' := match d.pending with
+      | b :: _ => if isPrintableByte b then d else { d with consumed := d.consumed + d.pending.length, pending := [] }
+      | [] => d
+    (← IO.getStdout).putStrLn "T eof"
+    let d' ← printObs d' [] false
     loop wt h d'
   | ["end"] => loop wt h d
   | [] => loop wt h d
